@@ -267,6 +267,41 @@ pub fn enumerate(tier: Tier) -> Vec<Case> {
         }
     }
 
+    // --- 2a'. instances that emit OTHER selectors than the compiled description -----
+    // (same row count, same PI rows, same wiring): the compiled description and the
+    // instance's wire values alone decide; what gate kinds the instance "uses" is irrelevant
+    {
+        let fam_cases: Vec<usize> = cases
+            .iter()
+            .enumerate()
+            .filter(|(_, c)| {
+                let custom = c.name.starts_with('[') && !c.name.starts_with("[Arith]");
+                let sel = c.name.ends_with("/base") || c.name.ends_with("w0+1") || c.name.ends_with("w3+1") || c.name.ends_with("w1+4");
+                custom && sel && (tier == Tier::Thorough || c.name.contains("/First/"))
+            })
+            .map(|(i, _)| i)
+            .collect();
+        for i in fam_cases {
+            let base = Case { name: cases[i].name.clone(), lay: cases[i].lay.clone(), asg: cases[i].asg.clone() };
+            let n = base.lay.rows.len();
+            let mut variants: Vec<(&str, Vec<[Fe; 11]>)> = vec![];
+            variants.push(("no-selectors", vec![[zero(); 11]; n]));
+            let mut ar = [zero(); 11];
+            ar[QARITH] = one();
+            variants.push(("plain-arith", vec![ar; n]));
+            // another custom family's selectors on the first row
+            let other = merged_row(&[if base.name.starts_with("[Range]") { Fam::Var } else { Fam::Range }]);
+            let mut o = vec![[zero(); 11]; n];
+            o[0] = other.q;
+            variants.push(("other-family", o));
+            for (vn, q) in variants {
+                let mut asg = base.asg.clone();
+                asg.inst_q = Some(q);
+                cases.push(Case { name: format!("foreign-selectors/{}/{}", vn, base.name), lay: base.lay.clone(), asg });
+            }
+        }
+    }
+
     // --- 2b. crafted cases isolating components no single-wire perturbation isolates
     for place in [Place::First, Place::After(3)] {
         // logic.dE alone: with q_c = -1/3 the op identity does not determine E
@@ -592,7 +627,7 @@ pub fn run_case(cache: &KeyCache, c: &Case) -> Outcome {
 
 pub fn main(tier: Tier, replay: Option<serde_json::Value>) -> i32 {
     let mut run = Run::new("C05", tier, "model_checking");
-    run.rule = "cases = raw-row layouts (arithmetic selector tuples; custom-gate families alone, pairwise and all at once; first / middle / last-row-of-full-domain placement) x assignments (constructed satisfying, every single-wire perturbation, copy-constraint breaks, size mismatches); every case is decided by the row model M1 and executed on the real prover+verifier; non-trivial = distinct (layout, assignment) whose M1 verdict was compared with the real outcome".into();
+    run.rule = "cases = raw-row layouts (arithmetic selector tuples; custom-gate families alone, pairwise and all at once; first / middle / last-row-of-full-domain placement) x assignments (constructed satisfying, every single-wire perturbation, copy-constraint breaks, size mismatches; instances emitting other selectors than the compiled description); every case is decided by the row model M1 and executed on the real prover+verifier; non-trivial = distinct (layout, assignment) whose M1 verdict was compared with the real outcome".into();
     let pp = crate::setup::pp(64);
     let cache = KeyCache::new(pp, b"c05");
     let cases = enumerate(tier);
@@ -618,6 +653,7 @@ pub fn main(tier: Tier, replay: Option<serde_json::Value>) -> i32 {
     let outs = crate::par::par_map(&cases, |c| run_case(&cache, c));
     let mut only_fail = [0u64; N_COMPONENTS];
     let mut copy_only = 0u64;
+    let (mut foreign_sat, mut foreign_unsat) = (0u64, 0u64);
     let mut layouts = std::collections::HashSet::new();
     for (c, o) in cases.iter().zip(outs) {
         run.evaluations += 1;
@@ -642,6 +678,13 @@ pub fn main(tier: Tier, replay: Option<serde_json::Value>) -> i32 {
             None => {}
         }
         let exp = expected(&o.verdict);
+        if o.name.starts_with("foreign-selectors/") {
+            if o.verdict.satisfied() {
+                foreign_sat += 1;
+            } else {
+                foreign_unsat += 1;
+            }
+        }
         let key = fnv(format!("{}|{}", o.lay_key, o.desc).as_bytes());
         run.nontrivial(key);
         match &o.verdict {
@@ -689,6 +732,7 @@ pub fn main(tier: Tier, replay: Option<serde_json::Value>) -> i32 {
     run.gate("cancelling residual pairs constructed", run.count("crafted:cancelling-pair") >= 50);
     run.gate("uniform-violation cases constructed", cases.iter().filter(|c| c.name.starts_with("uniform/") && c.name.ends_with("all-rows")).count() >= 2);
     run.gate(">=1 size mismatch case", run.count("model:size-mismatch") > 0);
+    run.gate("foreign-selector instances: satisfied and unsatisfied ones", foreign_sat > 0 && foreign_unsat > 0);
     run.extra.insert("only_failing_component_counts".into(), json!(COMPONENT_NAMES.iter().zip(only_fail.iter()).map(|(n, c)| (n.to_string(), *c)).collect::<std::collections::BTreeMap<_, _>>()));
     run.extra.insert("copy_only_cases".into(), json!(copy_only));
     run.extra.insert("compiles".into(), json!(cache.len()));
